@@ -191,7 +191,7 @@ func VerifC20Custom() {
 	t := New(WithHeader(ver, phone))
 	lens := []int{0, 1, 3}
 	if vrt_Tier() > 0 {
-		lens = []int{0, 1, 2, 3, 5}
+		lens = []int{0, 1, 3, 5}
 	}
 	n := lens[vrt_Choose("bodyLen", len(lens))]
 	body := vrt_Bytes("body", n)
